@@ -42,9 +42,14 @@ def run(run):
             if n >= 3: lists = [ANY] * 2 + [ANY[:4] + [ANY[9]]] * (n - 2) if (name in ('merge', 'not_null')) else [ANY[:3]] * n      # beyond the declared arity only the count matters (variadics keep type variety)
             if n == 0: lists = []
             jobs.append(('sig', name, lists, dl))
+    # expression->number|string: the keys an expression reference yields must be uniformly numbers or uniformly strings (first key fixes the type)
+    KEYED = [[{'a': 1}, {'a': 'x'}], [{'a': 'x'}, {'a': 1}], [{'a': 1}, {'a': 2}, {'a': 'x'}], [{'a': 'x'}, {'a': 'y'}, {'a': 2}], [{'a': 1}, {'a': None}], [{'a': None}, {'a': 1}], [{'a': True}], [{'a': [1]}, {'a': [2]}], [{'a': 1}, {'a': 2}], [{'a': 'x'}, {'a': 'y'}]]
+    for name in ('max_by', 'min_by', 'sort_by'):
+        jobs.append(('sig', name, [KEYED, [('expref', '&a'), ('expref', '&b'), ('expref', '&to_number(a)')]], dl))
     run.bounds = {'decision table': f'27 names (26 built-ins + 1 unregistered) x argument counts 0..declared+2 x every combination of {len(ANY)} type representatives per position '
                                     '(null, boolean, number, string, empty array, array of numbers, array of strings, mixed array, empty object, object, expression reference'
                                     + ('' if quick else ', nested array, object holding an array, fraction, empty string, false') + '); for counts beyond the declared arity of non-variadic functions 3 representatives per position'}
+    run.bounds['expression result types'] = 'max_by / min_by / sort_by over 10 arrays whose keys are uniformly numbers, uniformly strings, mixed at the second or third element, null, boolean or arrays'
     run.outside = ['values inside the same type class other than the representatives (C02 varies the values)']
     run.assumes = ['`any` accepts every value including expression references (as the reference implementation and the compliance suite do); by-functions may raise invalid-type for expression results that are not uniformly number/string']
     run_jobs(run, jobs, task, 'mirsym: call decision table vs the signature table of the function specification')
